@@ -7,8 +7,10 @@ for d in seeded/*/; do
   [ -n "$1" ] && [ "$1" != "$id" ] && continue
   prop=$(python3 -c "import json;print(json.load(open('$d/meta.json'))['property'])")
   git -C /repo apply /verif/$d/patch.diff || { echo "$id: patch does not apply" | tee $d/detect.txt; continue; }
+  cp evidence/$prop.json /tmp/evidence-$prop.keep 2>/dev/null   # evidence must come from the unchanged tree
   ./check $prop quick > /tmp/seedrun.log 2>&1; rc=$?
   git -C /repo checkout -- .
+  cp /tmp/evidence-$prop.keep evidence/$prop.json 2>/dev/null
   { echo "check $prop quick on /repo + $id/patch.diff: exit $rc"; grep -E "^VIOLATION|^$prop quick" /tmp/seedrun.log | head -6; } | tee $d/detect.txt
 done
 git -C /repo status --short | head -3
